@@ -4,6 +4,7 @@ import ErrModel.Proto
 import ErrModel.ProtoEnc
 import ErrModel.ProtoPay
 import ErrModel.ProtoFull
+import ErrModel.ProtoHop
 /-
   C01 — Error text and cause-tree structure survive network transfer.
 
@@ -181,5 +182,15 @@ theorem C01_wire_details_with_payload (d : Det) (h : Proto.DetSmallP d) :
 theorem C01_wire_full_partial (w : Proto.F) (h : Proto.SmallF w) :
     Proto.desF (Proto.heightF w) (Proto.serF w) = some w :=
   Proto.desF_serF w (Proto.heightF w) (Nat.le_refl _) h
+
+
+/-- A hop through actual bytes — EncodeError, Marshal, Unmarshal, DecodeError — is the hop of the
+    transport model (to which C01_hop … C01_no_drift apply), for every error whose layers carry no
+    nested EncodedError payload and whose length prefixes fit 64 bits.  Partial: barrier and
+    secondary-error layers (nested payload) and gRPC status leaves go through gogo's code unmodelled. -/
+theorem C01_hop_through_bytes_partial (P Q : Proc) (vf : Err → Str) (tag : Nat) (e : Err)
+    (hn : Proto.noNested (encode P vf e) = true) (hs : Proto.SmallF (Proto.full (encode P vf e))) :
+    (Proto.throughBytes (encode P vf e)).bind (decode Q [tag]) = hop P Q vf tag e :=
+  Proto.hop_through_bytes P Q vf tag e hn hs
 
 end ErrModel
